@@ -149,6 +149,7 @@ type Ctx struct {
 	callHook       func(c *Ctx, x *ast.CallExpr, st *State) ([]Val, bool)
 	stmtHook       func(c *Ctx, s ast.Stmt, st *State) (Flow, bool)
 	noSafeNil      bool
+	assertSeen     map[*AssertClause]bool
 	assertHook     func(v Val, target types.Type, st *State) (Val, string, bool) // family engines: type assertions on modelled library values
 	bidMemo        map[string]string // ids handed out for byte-sequence values, by syntactic identity of the value
 	mapEvents      []mapEvent
@@ -186,7 +187,7 @@ type PanicRec struct {
 
 func newCtx(prog *Program, pkg *packages.Package, mode, unit string) *Ctx {
 	return &Ctx{mode: mode, prog: prog, pkg: pkg, info: pkg.TypesInfo, fset: pkg.Fset, unit: unit,
-		safeN: map[string]int{}, heapSorts: map[string]string{}, abstr: map[string]int{}, wrapIdx: map[string]int{}, usedSpecs: map[string]bool{}, specEnv: map[string]Val{}}
+		safeN: map[string]int{}, heapSorts: map[string]string{}, abstr: map[string]int{}, wrapIdx: map[string]int{}, usedSpecs: map[string]bool{}, specEnv: map[string]Val{}, assertSeen: map[*AssertClause]bool{}}
 }
 
 func (c *Ctx) isBV() bool    { return c.mode == "bv" }
